@@ -32,22 +32,60 @@ def prob(mk, sname, history, convention="plain"):
     return [it for it in items if it.kind == "true"]
 
 
+FAMILIES = {
+    # family of user functions -> system methods from the highest derivative order down (each returns the lower ones too in the
+    # 'aux' convention), and the call counter object they are counted on
+    "model": ["mtp_neg_log_dens", "hess_neg_log_dens", "grad_neg_log_dens", "neg_log_dens"],
+    "metric_model": ["vjp_metric_func", "metric_func"],
+    "constraint": ["mhp_constr", "jacob_constr", "constr"],
+}
+
+
 def prob_aux(mk, sname):
-    """After the derivative method ran with the 'aux' convention, the lower-order methods evaluate nothing."""
+    """After a derivative method ran with the 'aux' convention, the lower-order methods of the same family evaluate nothing:
+    for every family of user functions the system has (density / metric / constraint) and for EVERY method of the family as
+    the first call (matrix-Tressian product, Hessian, gradient; metric VJP; constraint MHP, Jacobian), plus the composite
+    dh_dpos -> h1 / neg_log_dens."""
     systems, dim = CL.build(mk, sname, "aux", False)
     sysm, info = systems[0]
     q, p = mk.arr("q", dim), mk.arr("p", dim)
     if "metric_model" in info:
         info["metric_model"].require_valid(mk, list(q))
+    items = []
+
+    def counts():
+        return {k: dict(info[k].calls) for k in ("model", "metric_model", "constraint") if k in info}
     st = CL.ChainState(pos=q.copy(), mom=p.copy(), dir=1)
     sysm.dh_dpos(st)
-    before = {k: dict(info[k].calls) for k in ("model", "metric_model", "constraint") if k in info}
+    before = counts()
     sysm.h1(st)
     sysm.neg_log_dens(st)
-    after = {k: dict(info[k].calls) for k in before}
+    after = counts()
     ok = before == after
-    return [Item(f"{sname}: values returned alongside derivatives are reused (h1 / neg_log_dens cost nothing after dh_dpos)" + ("" if ok else f": {before} -> {after}"),
-                 ok if not mk.symbolic else z3.BoolVal(ok), None, kind="true")]
+    items.append(Item(f"{sname}: values returned alongside derivatives are reused (h1 / neg_log_dens cost nothing after dh_dpos)" + ("" if ok else f": {before} -> {after}"),
+                      ok if not mk.symbolic else z3.BoolVal(ok), None, kind="true"))
+    for fam, order in FAMILIES.items():
+        if fam not in info:
+            continue
+        present = [m for m in order if callable(getattr(sysm, m, None)) and getattr(sysm, "_" + m, True) is not None]
+        for first_i, first in enumerate(present[:-1]):
+            st = CL.ChainState(pos=q.copy(), mom=p.copy(), dir=1)
+            try:
+                getattr(sysm, first)(st)
+            except Exception:  # noqa: BLE001  (method not available for this configuration)
+                continue
+            before = dict(info[fam].calls)
+            for later in present[first_i + 1:]:
+                getattr(sysm, later)(st)
+            # also on a copy of the state: copies share the cached auxiliary values
+            st2 = st.copy()
+            for later in present[first_i + 1:]:
+                getattr(sysm, later)(st2)
+            after = dict(info[fam].calls)
+            ok = before == after
+            items.append(Item(f"{sname}: after {first}(state) the lower-order {present[first_i + 1:]} evaluate no user function (state and copy)"
+                              + ("" if ok else f": calls {before} -> {after}"), ok if not mk.symbolic else z3.BoolVal(ok), None, kind="true"))
+    return items
 
 
 def run_group(rec, probs):
